@@ -580,7 +580,17 @@ func piTemplateContent(r *Rng, typ string, p int) (string, []byte) {
 		}
 		return "obj", []byte(`{"body":"x"}`)
 	}
-	switch c := piPick(r, p, "invite", "join", "leave", "ban", "knock", "missing", "nonstring", "null", "bad", "empty", "via"); c {
+	switch c := piPick(r, p, "invite", "join", "leave", "ban", "knock", "missing", "nonstring", "null", "bad", "empty", "via", "variant", "variant-after", "variant-before", "variant-via"); c {
+	// member names under another spelling (a reader of exact names sees: no membership / a leave / an invite / an
+	// invite without authorising user and third-party invite)
+	case "variant":
+		return c, []byte(`{"Membership":"invite"}`)
+	case "variant-after":
+		return c, []byte(`{"membership":"leave","memberſhip":"invite"}`)
+	case "variant-before":
+		return c, []byte(`{"MEMBERSHIP":"leave","membership":"invite"}`)
+	case "variant-via":
+		return c, []byte(`{"Join_authorised_via_users_server":"@carol:hs3","Third_party_invite":{"signed":{"token":"t"}},"membership":"invite"}`)
 	case "missing":
 		return c, []byte(`{}`)
 	case "nonstring":
@@ -798,6 +808,10 @@ func piRemoteAnswer(r *Rng, verImpl gmsl.IRoomVersion, rk string, proto gmsl.Pro
 		proto.Content = []byte(`{"membership":"` + rk + `"}`)
 	case "nomembership":
 		proto.Content = []byte(`{}`)
+	case "membership-variant": // the remote answers with an event that is an invite only under a folded reading of its content
+		proto.Content = []byte(`{"Membership":"invite"}`)
+	case "membership-variant-after":
+		proto.Content = []byte(`{"membership":"leave","memberſhip":"invite"}`)
 	case "otherroom":
 		proto.RoomID = "!elsewhere:hs1"
 	case "othersender":
@@ -832,6 +846,7 @@ func piRemoteAnswer(r *Rng, verImpl gmsl.IRoomVersion, rk string, proto gmsl.Pro
 }
 
 var piRemoteClasses = []string{"ok", "nonmember", "nostatekey-msg", "nostatekey-member", "leave", "join", "ban", "knock", "nomembership",
+	"membership-variant", "membership-variant-after",
 	"otherroom", "othersender", "unsigned", "wrongkey", "selfsigned", "x", "err", "nil"}
 
 // piForce: parameters fixed by the prologue ("" = generated)
@@ -1107,6 +1122,19 @@ func genSendJoinPseudoFix(o *Out, r *Rng, i int, fix hsFix) {
 	}
 	if rare(5) {
 		content["displayname"] = 5
+	}
+	if rare(6) {
+		// a member name under another spelling only (no reader sees the member), or next to the exact name
+		k := Pick(r, []string{"membership", "mxid_mapping", "join_authorised_via_users_server"})
+		v, had := content[k]
+		if had && r.Bool() {
+			delete(content, k)
+		}
+		if !had {
+			v = map[string]interface{}{"membership": "join", "mxid_mapping": mapping, "join_authorised_via_users_server": "@alice:hs2"}[k]
+		}
+		content[r.otherSpelling(k)] = v
+		o.Count("sendjoin-pseudo.member-name-variant." + k)
 	}
 	cj, _ := json.Marshal(content)
 	evRoom := pickDev(r, p, "!room:hs1", "!other:hs1")
